@@ -74,6 +74,8 @@ module Nat :
 
   val leb : nat -> nat -> bool
 
+  val ltb : nat -> nat -> bool
+
   val divmod : nat -> nat -> nat -> nat -> nat * nat
 
   val div : nat -> nat -> nat
@@ -578,6 +580,10 @@ val merge_symbols : symbol list list -> symbol list outcome
 val digit_z : char -> z
 
 val parse_digits : z -> bool -> char list -> z option
+
+val int_max_str_digits : nat
+
+val count_digits : char list -> nat
 
 val py_int : char list -> z option
 
